@@ -94,6 +94,13 @@ pub fn consts_obs(t: usize) -> Option<Obs> {
     Some(Obs(g::nt_consts(t)?.to_vec()))
 }
 
+/// `ntop <t> <Add|Sub|Mul> a b`: an operator impl on a restricted integer (only if the source has one): [1, value] | [0] for a panic
+pub fn ntop_obs(t: usize, op: &str, a: u64, b: u64) -> Option<Obs> {
+    if !g::NT_OPS.iter().any(|(i, o)| *i == t && *o == op) { return None; }
+    let r = std::panic::catch_unwind(|| g::nt_op(t, op, a, b));
+    Some(Obs(match r { Ok(Some(v)) => vec![1, v as i64], Ok(None) => return None, Err(_) => vec![0] }))
+}
+
 pub fn cnconst_obs(i: usize) -> Option<Obs> {
     let v = g::controller_constants();
     let (_, x) = v.get(i)?;
